@@ -4,17 +4,28 @@ PART 1 (inline select hub, E-seq).  A real Scheduler(startInThread=False, thread
 calling its own run() on the calling thread (which is made the scheduler's thread).  recoco.time is a
 virtual clock, SelectHub._select_func / recoco.select a virtual select that advances the clock to the next
 readiness / timer instant and ends the run (sets scheduler._hasQuit) when nothing can ever happen again (the
-explicit horizon), pox.lib.util.makePinger a counting fake.  Programs: every ORDERED tuple of 2 (quick) / up to 3
+explicit horizon), pox.lib.util.makePinger a counting fake.  Programs: every ORDERED tuple of 2 (quick) / 2-3
 (thorough) entities, an entity being a task (a generator script of <= 3 yields over the vocabulary OPS) or a
-Timer variant, within a cap on the total number of yields; environment choices (fd readiness instant per
-selecting task, the scheduler's _random for the priority-0.5 task, virtual time consumed per step) are explored
-with mc.engine.explore within a deviation bound.
+Timer variant, within a cap on the total number of yields (see inline_suites); environment choices (fd
+readiness instant per selecting task - all explored; the scheduler's _random for the priority-0.5 task and the
+virtual time consumed per step - deviations) are explored with mc.engine.explore within a deviation bound.
 
 PART 2 (threaded select hub, E-thr).  Ten representative programs of the same grammar run with the scheduler
 thread + the select-hub thread (+ an environment thread that lets virtual time reach the fd readiness instants)
 under the controlled-thread explorer mc/thr.py, every schedule within a deviation bound.
 
-Oracle = invariants on the recorded trace (task, step, virtual time, thread) - see World.
+PART 3.  The hub's alternative select function, pox.lib.epoll_select.EpollSelect, against select.select on real
+local sockets, every short sequence of calls.
+
+Oracle (parts 1, 2) = invariants on the recorded trace (task, step, virtual time, thread), see World:
+steps in program order, one at a time, on the scheduler thread; a task is never in the ready queue twice or while
+it runs; a timed wake never before the requested instant; a blocked task resumes only after a sibling scheduled
+it; a Select wake carries the task's own readable fd or an expired timeout; timers fire at >= each period, the
+expected number of times, never after cancel(); at the horizon nothing runnable is left un-run and every
+unfinished task waits for something that can never happen; a raising task leaves the others exactly as if it had
+ended there (differential twin); a sub-task's value / exception / plain return arrives at exactly its caller.
+
+Debugging aids: --only inline | inline:N (every N-th program) | threaded | threaded:K | epoll.
 """
 import gc, itertools, sys, threading, time, queue
 from mc.engine import explore, pmap, Ctx, Divergence
@@ -767,7 +778,7 @@ def _inline_worker (item):
         rep.outcome((w.observation(), tuple(k for k, _ in w.bad)))
         if w.bad:
           _violation(rep, w, dict(part="inline", prog=_prog_to_json(prog), choices=ctx.choices()))
-        elif rep.evaluations % 50000 == 1:
+        elif rep.evaluations % 7000 == 6999:
           rep.sample(dict(part="inline hub", program=prog_text(prog),
                           environment=[(l, c) for l, c in ctx.labelled() if c], observed=w.text().split("\n")[1:]))
       explore(lambda ctx, prog=prog: run_inline_checked(ctx, prog), dev_bound=dev, on_exec=on_exec)
@@ -910,7 +921,7 @@ def _thr_worker (item):
       if w.bad:
         _violation(rep, w, dict(part="threaded", program=pi, prog=_prog_to_json(prog), fd_at={str(k): v for k, v in fd_at.items()},
                                 funcs=None if funcs is None else list(funcs), choices=ctx.choices()))
-      elif rep.evaluations % 20000 == 1:
+      elif rep.evaluations % 900 == 899:
         rep.sample(dict(part="threaded hub", program=prog_text(prog), schedule_deviations=[(i, t[2], t[0]) for i, t in enumerate(ctx.trace) if t[0]],
                         observed=w.text().split("\n")[1:]))
       if rep.evaluations % 200 == 0: gc.collect()
